@@ -640,6 +640,19 @@ pub fn drive_c08(a: &Args) {
             }
         }
     }
+    // a character that is NOT an SMT-LIB character (and the replacement character itself) after every prefix of
+    // every kind of escape attempt: it is replaced by U+FFFD wherever the parser is
+    for base in [vec![92u32, 117, 123, 51, 102, 102, 102, 102, 125], vec![92, 117, 123, 51, 48, 48, 48, 48], vec![92, 117, 123, 50, 102, 102, 102, 102, 125],
+                 vec![92, 117, 48, 48, 52, 49], vec![92, 117, 123, 52, 49, 125], vec![92, 117, 123, 102, 102, 102, 102, 102, 102], vec![92, 92]] {
+        for p in 0..=base.len() {
+            for x in [0x30000u32, 0x10FFFF, 0xE0041, 0xFFFD] {
+                let mut t = base[..p].to_vec();
+                t.push(x);
+                t.extend(base[p..].iter());
+                out.emit(parse_event(&t));
+            }
+        }
+    }
     // look-alikes by truncation: a well-formed escape in which ONE character is replaced by the character with the
     // same low 8 / low 16 bits (a parser that narrows characters before classifying them takes it for the original)
     for base in [vec![92u32, 117, 48, 48, 52, 49], vec![92, 117, 123, 52, 49, 125], vec![92, 117, 123, 49, 102, 54, 48, 48, 125],
